@@ -27,7 +27,11 @@ use crate::util;
 enum Kind { Rsync, Rrdp }
 
 #[derive(Clone, Debug)]
-struct Scenario { name: &'static str, kind: Kind, targets: Vec<usize>, bound: usize }
+struct Scenario { name: &'static str, kind: Kind, targets: Vec<usize>, bound: usize,
+    /// threads that spell the host name in upper case (the same module)
+    upper: Vec<usize>,
+    /// the RRDP server answers the notification request with an error
+    failing: bool }
 
 fn scenarios(thorough: bool) -> Vec<Scenario> {
     // Every rsync fetch is a real child process (about 25 ms in this
@@ -35,15 +39,20 @@ fn scenarios(thorough: bool) -> Vec<Scenario> {
     // preemption bound in the quick tier.
     let b = if thorough { 3 } else { 2 };
     let mut res = vec![
-        Scenario { name: "rsync:AA", kind: Kind::Rsync, targets: vec![0, 0], bound: b },
-        Scenario { name: "rsync:AAB", kind: Kind::Rsync, targets: vec![0, 0, 1], bound: b - 1 },
-        Scenario { name: "rrdp:AA", kind: Kind::Rrdp, targets: vec![0, 0], bound: b },
-        Scenario { name: "rrdp:AAB", kind: Kind::Rrdp, targets: vec![0, 0, 1], bound: b },
+        Scenario { name: "rsync:AA", kind: Kind::Rsync, targets: vec![0, 0], bound: b, upper: vec![], failing: false },
+        Scenario { name: "rsync:AAB", kind: Kind::Rsync, targets: vec![0, 0, 1], bound: b - 1, upper: vec![], failing: false },
+        Scenario { name: "rrdp:AA", kind: Kind::Rrdp, targets: vec![0, 0], bound: b, upper: vec![], failing: false },
+        Scenario { name: "rrdp:AAB", kind: Kind::Rrdp, targets: vec![0, 0, 1], bound: b, upper: vec![], failing: false },
+        // one module under two spellings of its host name
+        Scenario { name: "rsync:Aa", kind: Kind::Rsync, targets: vec![0, 0], bound: b, upper: vec![0], failing: false },
+        // a repository whose update fails while another user waits for it
+        Scenario { name: "rrdp:AA:failing", kind: Kind::Rrdp, targets: vec![0, 0], bound: b, upper: vec![], failing: true },
     ];
     if thorough {
-        res.push(Scenario { name: "rsync:AAA", kind: Kind::Rsync, targets: vec![0, 0, 0], bound: 2 });
-        res.push(Scenario { name: "rrdp:AAA", kind: Kind::Rrdp, targets: vec![0, 0, 0], bound: 3 });
-        res.push(Scenario { name: "rsync:ABA", kind: Kind::Rsync, targets: vec![0, 1, 0], bound: 2 });
+        res.push(Scenario { name: "rrdp:AAA:failing", kind: Kind::Rrdp, targets: vec![0, 0, 0], bound: 3, upper: vec![], failing: true });
+        res.push(Scenario { name: "rsync:AAA", kind: Kind::Rsync, targets: vec![0, 0, 0], bound: 2, upper: vec![], failing: false });
+        res.push(Scenario { name: "rrdp:AAA", kind: Kind::Rrdp, targets: vec![0, 0, 0], bound: 3, upper: vec![], failing: false });
+        res.push(Scenario { name: "rsync:ABA", kind: Kind::Rsync, targets: vec![0, 1, 0], bound: 2, upper: vec![], failing: false });
     }
     res
 }
@@ -57,6 +66,7 @@ struct Worker {
     rrdp: &'static RrdpCollector,
     servers: Arc<Mutex<Vec<Server>>>,
     notify_log: Arc<Mutex<Vec<String>>>,
+    fail_notify: Arc<std::sync::atomic::AtomicBool>,
     _guard: rrdpsrv::HostGuard,
 }
 
@@ -95,15 +105,20 @@ fn make_worker(scratch: &PathBuf) -> Worker {
     }
     let servers = Arc::new(Mutex::new(servers));
     let notify_log = Arc::new(Mutex::new(Vec::new()));
+    let fail_notify = Arc::new(std::sync::atomic::AtomicBool::new(false));
     let guard = {
         let servers = servers.clone();
         let log = notify_log.clone();
+        let fail = fail_notify.clone();
         rrdpsrv::serve_host(&host, Arc::new(move |uri, etag, _lm| {
             if uri.ends_with("/notification.xml") {
                 log.lock().unwrap().push(uri.to_string());
             }
             // the fetch takes time: other threads may run meanwhile
             sched::point("http.fetch");
+            if fail.load(Ordering::SeqCst) && uri.ends_with("/notification.xml") {
+                return Some(HttpAnswer::Response(rrdpsrv::resp(500, vec![], b"oops".to_vec())))
+            }
             for s in servers.lock().unwrap().iter() {
                 if let Some(r) = s.answer(uri, etag) { return Some(HttpAnswer::Response(r)) }
             }
@@ -114,7 +129,7 @@ fn make_worker(scratch: &PathBuf) -> Worker {
         case, host,
         rsync: Box::leak(Box::new(rsync)),
         rrdp: Box::leak(Box::new(rrdp)),
-        servers, notify_log, _guard: guard,
+        servers, notify_log, fail_notify, _guard: guard,
     }
 }
 
@@ -136,6 +151,8 @@ fn body_with(sched: &Arc<Sched>, sc: &Scenario, w: &Worker) -> (Execution, Verdi
     fs::create_dir_all(cache.join("rrdp")).unwrap();
     w.case.clear_rsync_log();
     w.notify_log.lock().unwrap().clear();
+    w.fail_notify.store(sc.failing, Ordering::SeqCst);
+    let failing = sc.failing;
     let errors: Arc<Mutex<Vec<String>>> = Arc::new(Mutex::new(Vec::new()));
     let host = w.host.clone();
 
@@ -147,7 +164,8 @@ fn body_with(sched: &Arc<Sched>, sc: &Scenario, w: &Worker) -> (Execution, Verdi
             let run: &'static RsyncRun<'static> = run;
             for (i, t) in sc.targets.iter().enumerate() {
                 let errors = errors.clone();
-                let furi = uri::Rsync::from_str(&file_uri(&host, *t)).unwrap();
+                let spelled = if sc.upper.contains(&i) { host.to_uppercase() } else { host.clone() };
+                let furi = uri::Rsync::from_str(&file_uri(&spelled, *t)).unwrap();
                 sched.spawn(&format!("t{i}"), move || {
                     run.load_module(&furi);
                     // The fetch must be over: the file has to be there.
@@ -175,6 +193,9 @@ fn body_with(sched: &Arc<Sched>, sc: &Scenario, w: &Worker) -> (Execution, Verdi
                 let want = format!("rrdp content {t}").into_bytes();
                 sched.spawn(&format!("t{i}"), move || {
                     match run.load_repository(&notify) {
+                        Ok(RrdpLoadResult::Updated(_)) if failing => errors.lock().unwrap().push(format!(
+                            "updated-by-failed-fetch: t{i} got an updated repository although the notification request failed"
+                        )),
                         Ok(RrdpLoadResult::Updated(repo)) => {
                             sched::point("user.read");
                             match repo.load_object(&obj) {
@@ -185,6 +206,7 @@ fn body_with(sched: &Arc<Sched>, sc: &Scenario, w: &Worker) -> (Execution, Verdi
                                 )),
                             }
                         }
+                        Ok(_) if failing => { }
                         Ok(other) => errors.lock().unwrap().push(format!(
                             "not-updated: t{i} load_repository returned {}", match other {
                                 RrdpLoadResult::Unavailable => "Unavailable",
@@ -212,7 +234,8 @@ fn body_with(sched: &Arc<Sched>, sc: &Scenario, w: &Worker) -> (Execution, Verdi
     // fetch counts
     let mut counts: BTreeMap<String, usize> = BTreeMap::new();
     match sc.kind {
-        Kind::Rsync => for l in w.case.rsync_log() { *counts.entry(l).or_insert(0) += 1 },
+        // one module, however its host name is spelled
+        Kind::Rsync => for l in w.case.rsync_log() { *counts.entry(l.to_lowercase()).or_insert(0) += 1 },
         Kind::Rrdp => for l in w.notify_log.lock().unwrap().iter() { *counts.entry(l.clone()).or_insert(0) += 1 },
     }
     for (k, n) in &counts {
@@ -241,7 +264,9 @@ pub fn run(ctx: &Ctx) -> Report {
     let bound = if ctx.tier.thorough() { 3 } else { 2 };
     rep.rule = "2-3 controlled threads of one validation run call the real \
         rsync::Run::load_module / rrdp::Run::load_repository for the same \
-        and for different modules / repositories (scenarios AA, AAB; \
+        and for different modules / repositories (scenarios AA, AAB, \
+        the same module under two spellings of its host name, a \
+        repository whose update fails while another thread waits for it; \
         thorough AAA, ABA) and then read an object; the fake rsync (real \
         child process) logs every invocation, the fake HTTPS transport \
         logs notification requests and yields inside the fetch; every \
